@@ -82,6 +82,8 @@ VARIANTS = {
     "array:empty": [],
     "dict:empty": {},
     "array:nested": [[[]]],
+    "int:2^31-1": 2147483647,
+    "real:overflow": Real("9" * 320 + ".5"),
 }
 SAMPLE = {"int": 7, "real": Real("2.5"), "string": Str(b"x"), "name": Name(b"Xq"), "array": [1, Name(b"A")], "dict": {b"K": 1}, "null": None, "bool": True}
 
